@@ -346,6 +346,7 @@ func genGuards(c *ctx) {
 
 	// ---- prefix hash records ----
 	hashStep := int64(10 << 20)
+	var hashSrcSize int64 = -1 // what the peer announced as the size of its file (-1: a little more than the local file)
 	doHash := func(fsize int64, steps []int64, goods []bool) {
 		path := filepath.Join(work, "h.bin")
 		content := make([]byte, fsize)
@@ -362,7 +363,11 @@ func genGuards(c *ctx) {
 			g.Feed(append(encodeLine("HASH", js), '\n'))
 		}
 		g.Feed(append(encodeLine("HASH", []byte(`{"over":true}`)), '\n'))
-		e := g.RecvPrefixHash(path, fsize+7)
+		srcSize := fsize + 7
+		if hashSrcSize >= 0 {
+			srcSize = hashSrcSize
+		}
+		e := g.RecvPrefixHash(path, srcSize)
 		var acks []string
 		for _, l := range bytes.Split(g.Output(), []byte("\n")) {
 			if bytes.HasPrefix(l, []byte("#SUCC:")) {
@@ -398,6 +403,12 @@ func genGuards(c *ctx) {
 			res += ":err(" + e + ")"
 		}
 		c.count("hash:" + res[strings.LastIndex(res, ":")+1:][:2])
+		// direct oracle for a PAIR of announced numbers (size, step): whatever size is announced, a first step
+		// beyond the block size must be refused before anything is allocated
+		if len(steps) > 0 && (strings.HasSuffix(res, ":panic") || steps[0] > 10<<20 && !strings.HasSuffix(res, ":invalid")) {
+			c.violate(fmt.Sprintf("hash-pair:size=%d:step=%d", srcSize, steps[0]), "recvPrefixHash let a hash step through that is bounded only by the size the peer announced: "+res,
+				fmt.Sprintf("local file %d bytes, announced size %d, HASH steps %v => %s (%s)", fsize, srcSize, steps, res, e))
+		}
 		gs := make([]byte, len(goods))
 		parts := make([]string, len(steps))
 		for i := range goods {
@@ -418,6 +429,17 @@ func genGuards(c *ctx) {
 		c.emit(len(steps) > 0, "c12_hash", res, strconv.FormatInt(fsize, 10), sa, ga)
 	}
 	doHash(100, nil, nil)
+	for _, v := range []int64{1 << 62, 1 << 31, 10<<20 + 1, 10 << 20, math.MaxInt64} {
+		for _, fsize := range []int64{1, 3000} {
+			hashSrcSize = v
+			doHash(fsize, []int64{v}, []bool{true})          // size and step announced consistently
+			doHash(fsize, []int64{v - 1}, []bool{false})     // just below the announced size
+			doHash(fsize, []int64{1, v}, []bool{true, true}) // after a matching first block
+			hashSrcSize = 0
+			doHash(fsize, []int64{v}, []bool{true}) // step beyond the announced size
+		}
+	}
+	hashSrcSize = -1
 	for i := 0; i < c.pick(400, 6000); i++ {
 		fsize := []int64{1, 100, 3000}[c.rng.Intn(3)]
 		k := 1 + c.rng.Intn(3)
